@@ -6,7 +6,14 @@ import datetime
 import itertools
 
 import common
-from common import coq_z, coq_list
+from common import coq_z
+
+
+def coq_list(items, ty=None):
+    items = list(items)
+    if not items and ty:
+        return f"(@nil {ty})"
+    return "[" + "; ".join(items) + "]"
 
 PRELUDE = ("From Coq Require Import List ZArith Bool.\n"
            "From Basyx Require Import model.Corr model.ConstraintsBase model.ConstraintsModel model.ConstraintsObs.\n")
@@ -140,8 +147,8 @@ def frag_adm(chk, can_eval):
             chk.fail(f"C02:AdministrativeInformation:{what}:{msg2.split(':')[0][:40]}", msg2,
                      {"kind": "adm", "case": [list(case[0]), list(case[1]), [[w, list(a)] for w, a in small]]})
         v, r, ops = case
-        terms.append(f"({coq_s(v)}, {coq_s(r)}, " + coq_list(("SetVersion " if w == "version" else "SetRevision ") + coq_s(a)
-                                                               for w, a in ops) + f", {coq_z(common.zhash_d(tr, 2))})")
+        terms.append(f"({coq_s(v)}, {coq_s(r)}, " + coq_list([("SetVersion " if w == "version" else "SetRevision ") + coq_s(a)
+                                                               for w, a in ops], "aop") + f", {coq_z(common.zhash_d(tr, 2))})")
     _eval(chk, "C02adm", terms, "check_adm_case", "AdministrativeInformation", cases, can_eval, shard=3000)
 
 
@@ -257,7 +264,7 @@ def frag_bee(chk, can_eval):
             if o[0] == "max_interval":
                 return f"SetMaxInterval {'true' if o[1] else 'false'}"
             return f"SetLastUpdate {cu[o[1]]}"
-        terms.append(f"({'true' if d else 'false'}, {cu[u]}, {'true' if m else 'false'}, " + coq_list(cop(o) for o in ops)
+        terms.append(f"({'true' if d else 'false'}, {cu[u]}, {'true' if m else 'false'}, " + coq_list([cop(o) for o in ops], "bop")
                      + f", {coq_z(common.zhash_d(tr, 2))})")
     _eval(chk, "C02bee", terms, "check_bee_case", "BasicEventElement", cases, can_eval, shard=3000)
 
@@ -451,7 +458,7 @@ def frag_lss(chk, can_eval):
                 for seq in itertools.product(alpha, repeat=L):
                     cases.append((ci, kvs, list(seq)))
     chk.cov["lss_exhaustive"] = f"all sequences of length <= {exh} over 12 operations, 5 constructor dicts, LangStringSet and MultiLanguageTextType"
-    for _ in range(1500 if chk.tier == "quick" else 20000):
+    for _ in range(1500 if chk.tier == "quick" else 12000):
         ci = rng.randrange(6)
         ks = rng.sample(range(6), rng.choice([0, 1, 1, 2, 3]))
         if rng.random() < 0.7:
@@ -487,9 +494,9 @@ def frag_lss(chk, can_eval):
                 return "LPopItem"
             if k == "setdefault":
                 return f"LSetDefault {o[1]}%nat {b(o[2])}"
-            return "LUpdate " + coq_list(f"({a}%nat, {b(t)})" for a, t in o[1])
-        terms.append(f"({'false' if ci == 0 else 'true'}, " + coq_list(f"({k}%nat, {'true' if t else 'false'})" for k, t in kvs)
-                     + ", " + coq_list(cop(o) for o in ops) + f", {coq_z(common.zhash_d(tr, 2))})")
+            return "LUpdate " + coq_list([f"({a}%nat, {b(t)})" for a, t in o[1]], "(nat * bool)")
+        terms.append(f"({'false' if ci == 0 else 'true'}, " + coq_list([f"({k}%nat, {'true' if t else 'false'})" for k, t in kvs], "(nat * bool)")
+                     + ", " + coq_list([cop(o) for o in ops], "lop") + f", {coq_z(common.zhash_d(tr, 2))})")
     _eval(chk, "C02lss", terms, "check_lss_case", "LangStringSet", cases, can_eval, shard=1500)
     # the tag predicate and the per-class text limits on the SDK alone (boundary lengths, more tags)
     for name, cls, constrained, maxlen in lss_classes():
